@@ -20,13 +20,18 @@ def getitem(x, key):
     """
     from .compressed import GCXS
 
-    if x.ndim == 1:
+    if x.ndim <= 1:
         result = x.tocoo()[key]
         if np.isscalar(result):
             return result
         return GCXS.from_coo(result)
 
+    orig_key = key
     key = list(normalize_index(key, x.shape))
+
+    # new axes are inserted by COO, as for 1-d arrays
+    if any(k is None for k in key):
+        return GCXS.from_coo(x.tocoo()[orig_key])
 
     # zip_longest so things like x[..., None] are picked up.
     if len(key) != 0 and all(isinstance(k, slice) and k == slice(0, dim, 1) for k, dim in zip_longest(key, x.shape)):
